@@ -80,10 +80,19 @@ enum FPred {
     Value(Ty, VAtom),
     Const(bool),
 }
+/// `predicates::ord::{eq, le, lt}` over `Level`
+#[derive(Clone, Debug, PartialEq)]
+enum LAtom {
+    Eq(Level),
+    Le(Level),
+    Lt(Level),
+}
 #[derive(Clone, Debug, PartialEq)]
 enum Pred {
     LevelEq(Level),
     LevelMax(Option<Level>),
+    /// `level([atom])`: any `Predicate<Level>` in a one-element array
+    LevelAtom(LAtom),
     Target(&'static str),
     TargetAtom(SAtom),
     Name(SAtom),
@@ -136,6 +145,7 @@ impl Pred {
         let key = match self {
             Pred::LevelEq(_) => "pred:level_eq",
             Pred::LevelMax(_) => "pred:level_filter",
+            Pred::LevelAtom(_) => "pred:level_atom",
             Pred::Target(_) => "pred:target_str",
             Pred::TargetAtom(_) => "pred:target_atom",
             Pred::Name(_) => "pred:name",
@@ -223,6 +233,9 @@ fn cpred(p: &Pred) -> String {
     match p {
         Pred::LevelEq(l) => format!("(PLevelEq {})", clvl(l)),
         Pred::LevelMax(o) => format!("(PLevelMax {})", copt(o.as_ref(), |l| clvl(l).to_owned())),
+        Pred::LevelAtom(LAtom::Eq(l)) => format!("(PLevelAtom (LAEq {}))", clvl(l)),
+        Pred::LevelAtom(LAtom::Le(l)) => format!("(PLevelAtom (LALe {}))", clvl(l)),
+        Pred::LevelAtom(LAtom::Lt(l)) => format!("(PLevelAtom (LALt {}))", clvl(l)),
         Pred::Target(s) => format!("(PTarget {})", cstr(s)),
         Pred::TargetAtom(a) => format!("(PTargetAtom {})", csatom(a)),
         Pred::Name(a) => format!("(PName {})", csatom(a)),
@@ -258,6 +271,14 @@ impl<T: ?Sized> Predicate<T> for Dyn<T> {
     }
     fn find_case<'a>(&'a self, expected: bool, variable: &T) -> Option<Case<'a>> {
         self.0.find_case(expected, variable)
+    }
+}
+
+fn latom(a: &LAtom) -> Dyn<Level> {
+    match a {
+        LAtom::Eq(l) => Dyn::new(predicates::ord::eq(*l)),
+        LAtom::Le(l) => Dyn::new(predicates::ord::le(*l)),
+        LAtom::Lt(l) => Dyn::new(predicates::ord::lt(*l)),
     }
 }
 
@@ -381,6 +402,7 @@ macro_rules! builder {
             match cur {
                 Pred::LevelEq(l) => $sp3(level(*l), ops),
                 Pred::LevelMax(o) => $sp3(level(filter_of(o)), ops),
+                Pred::LevelAtom(a) => $sp3(level([latom(a)]), ops),
                 Pred::Target(s) => $sp3(target(*s), ops),
                 Pred::TargetAtom(a) => $sp3(target([satom(a)]), ops),
                 Pred::Name(a) => builder!(@name $with_name, $sp3, a, ops),
@@ -846,6 +868,9 @@ fn all_leaves() -> Vec<Pred> {
     out.push(Pred::LevelMax(None));
     for l in LEVELS {
         out.push(Pred::LevelMax(Some(l)));
+        out.push(Pred::LevelAtom(LAtom::Eq(l)));
+        out.push(Pred::LevelAtom(LAtom::Le(l)));
+        out.push(Pred::LevelAtom(LAtom::Lt(l)));
     }
     for t in TARGET_PATHS {
         out.push(Pred::Target(t));
